@@ -13,6 +13,17 @@ import (
 // establishedTrue: block b is reached only over the true edge of a test for which is(cond) holds (edge dominance: the
 // true successor has no other predecessor).
 func establishedTrue(b *ssa.BasicBlock, is func(cond ssa.Value) bool) bool {
+	return established(b, func(cond ssa.Value) int {
+		if is(cond) {
+			return 1
+		}
+		return 0
+	})
+}
+
+// established: the same with a predicate that also recognises the negated spelling: +1 the condition states the
+// property, -1 it states its negation (then the false edge establishes the property), 0 neither.
+func established(b *ssa.BasicBlock, pol func(cond ssa.Value) int) bool {
 	for d := b; d.Idom() != nil; d = d.Idom() {
 		id := d.Idom()
 		ifi, ok := id.Instrs[len(id.Instrs)-1].(*ssa.If)
@@ -24,11 +35,12 @@ func establishedTrue(b *ssa.BasicBlock, is func(cond ssa.Value) bool) bool {
 		if u, ok := cond.(*ssa.UnOp); ok && u.Op == token.NOT {
 			cond, neg = u.X, true
 		}
-		if !is(cond) {
+		p := pol(cond)
+		if p == 0 {
 			continue
 		}
 		vt, vf := viaEdge(id, d)
-		if neg {
+		if neg != (p < 0) {
 			vt, vf = vf, vt
 		}
 		if vt {
@@ -103,8 +115,17 @@ func crGuardRule(c *core.Ctx, key string, fn *ssa.Function, pack bool) {
 					problems = append(problems, "the octet filled at "+at+" is not the one before the output cursor")
 				}
 				// where: (7n)%8 == 1 found true
-				is71 := func(cond ssa.Value) bool { return strings.Contains(role(plain, cond), "*k7)%k8)==k1") }
-				if !establishedTrue(or.Block(), is71) {
+				is71 := func(cond ssa.Value) int {
+					r := role(plain, cond)
+					switch {
+					case strings.Contains(r, "*k7)%k8)==k1"):
+						return 1
+					case strings.Contains(r, "*k7)%k8)!=k1"):
+						return -1
+					}
+					return 0
+				}
+				if !established(or.Block(), is71) {
 					problems = append(problems, "the CR fill at "+at+" is not confined to (7n)%8 == 1 found true: octets that carry data bits above bit 0 are altered")
 				}
 				if fn.Signature.Recv() != nil && !establishedTrue(or.Block(), isPacked) {
@@ -114,8 +135,13 @@ func crGuardRule(c *core.Ctx, key string, fn *ssa.Function, pack bool) {
 				var start *ssa.BasicBlock
 				for d := or.Block(); d.Idom() != nil; d = d.Idom() {
 					id := d.Idom()
-					if ifi, ok := id.Instrs[len(id.Instrs)-1].(*ssa.If); ok && is71(ifi.Cond) {
-						start = id.Succs[0]
+					if ifi, ok := id.Instrs[len(id.Instrs)-1].(*ssa.If); ok {
+						switch is71(ifi.Cond) {
+						case 1:
+							start = id.Succs[0]
+						case -1:
+							start = id.Succs[1]
+						}
 					}
 				}
 				for _, val := range []int64{0, 1} {
@@ -206,27 +232,39 @@ func crGuardRule(c *core.Ctx, key string, fn *ssa.Function, pack bool) {
 					problems = append(problems, "the strip at "+at+" does not drop exactly one septet")
 				}
 				xr := role(plain, sl.X)
-				isLen8 := func(cond ssa.Value) bool { return strings.Contains(role(plain, cond), "(len("+xr+")%k8)==k0") }
-				isCR := func(cond ssa.Value) bool {
+				isLen8 := func(cond ssa.Value) int {
+					r := role(plain, cond)
+					switch {
+					case strings.Contains(r, "(len("+xr+")%k8)==k0"):
+						return 1
+					case strings.Contains(r, "(len("+xr+")%k8)!=k0"):
+						return -1
+					}
+					return 0
+				}
+				isCR := func(cond ssa.Value) int {
 					bo, ok := cond.(*ssa.BinOp)
-					if !ok || bo.Op != token.EQL {
-						return false
+					if !ok || (bo.Op != token.EQL && bo.Op != token.NEQ) {
+						return 0
 					}
 					for _, pair := range [][2]ssa.Value{{bo.X, bo.Y}, {bo.Y, bo.X}} {
 						if k, ok := constInt(pair[1]); ok && k == 0x0d {
 							if ld, ok := pair[0].(*ssa.UnOp); ok && ld.Op == token.MUL {
 								if ia, ok := ld.X.(*ssa.IndexAddr); ok && role(plain, ia.X) == xr && role(plain, ia.Index) == "(len("+xr+")-k1)" {
-									return true
+									if bo.Op == token.EQL {
+										return 1
+									}
+									return -1
 								}
 							}
 						}
 					}
-					return false
+					return 0
 				}
-				if !establishedTrue(sl.Block(), isLen8) {
+				if !established(sl.Block(), isLen8) {
 					problems = append(problems, "the strip at "+at+" is not confined to len%8 == 0 found true: a genuine trailing CR of other lengths is lost")
 				}
-				if !establishedTrue(sl.Block(), isCR) {
+				if !established(sl.Block(), isCR) {
 					problems = append(problems, "the strip at "+at+" is not confined to `last septet == 0x0d` found true: another trailing character is lost")
 				}
 				if fn.Signature.Recv() != nil && !establishedTrue(sl.Block(), isPacked) {
